@@ -993,5 +993,5 @@ func checkC19(c *Ctx) {
 	}
 	c.sigs = distinct
 	c.Exhaustive = true
-	c.Extra["exhaustive_part"] = "for every seed, every downlink message index of the baseline conversation x every fault kind"
+	c.Extra["exhaustive_part"] = "for every seed: every downlink message index of the baseline conversation x {close_before, abort_before, garbage:choice, garbage:prefix, garbage:empty-container} and dial_fail (all / first only) are enumerated completely; the parametrised garbage classes (cut point, inner length, long, short values), write errors and fault sequences are sampled per message in the quick tier and enumerated more widely in the thorough tier (every cut point for one seed in eight, every uplink index for write errors)"
 }
